@@ -20,6 +20,8 @@ CHECKS = {
          "Lean 4 proof (induction over call histories) over translator-generated effect summaries + history differential runs", "§3 C14"),
  "C13": ("the code /repo generates now (inline sparse/dense, rendered module; F, J, Hvp) for a model zoo is translated to a small IR; Lean proves a purity analysis sound for a heap semantics (arguments never written, result freshly allocated, on every initial heap) and decides that every generated program passes; random call histories on the real objects retain arguments and results and check bit-identity, unchanged retained results and history independence",
          "Lean 4 proof (soundness of a static analysis by induction over statements) on translator-generated IR + retained-object call histories", "§3 C13"),
+ "C03": ("Lean theorems on facts translated from the module generator as it is now: the rendered dependency.py addresses the pickle exactly where it was saved on POSIX and Windows, from abspath(__file__) (cwd-independent); all four files are written unconditionally and a re-render overwrites each. Backend agreement and reload are tied by rendering every zoo model, importing it in a fresh interpreter from another directory, comparing F/J/HVP/M/p/y/nstep with the in-process sparse and dense models, and repeating after two kinds of re-render. Import machinery / dill / numba cache: runtime, partial",
+         "Lean 4 proof over translator-extracted path/IO facts + fresh-interpreter differential runs over render/import/re-render histories", "§3 C03"),
 }
 REASONS = {}
 props = [json.loads(l)["id"] for l in open(os.path.join(V, "properties.jsonl"))]
